@@ -80,6 +80,7 @@ type Exec struct {
 	forallVals   []Val               // the contract's universally quantified constants
 	curCC        *ssa.CallCommon     // the call being executed (frame by encapsulation)
 	curFn        *ssa.Function
+	siteCovers   []*Oblig // reachability of the continuation of each contract application (diagnostic)
 }
 
 type frame struct {
